@@ -37,7 +37,7 @@ func genC06(repo string) (string, error) {
 	if err != nil {
 		return "", err
 	}
-	for _, fn := range []string{"getRelevantRegions", "PreCheckPutRegion", "PutRegion"} {
+	for _, fn := range []string{"getRelevantRegions", "PreCheckPutRegion", "PutRegion", "ScanRange", "CheckAndPutRegion", "CheckAndPutLoadedRegion"} {
 		if err := o.srcDef(bc, "BasicCluster", fn, "src_bc_"+fn); err != nil {
 			return "", err
 		}
@@ -78,6 +78,14 @@ func genC06(repo string) (string, error) {
 		return "", err
 	}
 	if err := o.srcDef(rg, "", "RegionFromHeartbeat", "src_RegionFromHeartbeat"); err != nil {
+		return "", err
+	}
+	// start-up glue: the cache (BasicCluster) of a member outlives its leader terms
+	sv, err := goast.Load(repo, "server/server.go")
+	if err != nil {
+		return "", err
+	}
+	if err := o.srcDef(sv, "Server", "createRaftCluster", "src_server_createRaftCluster"); err != nil {
 		return "", err
 	}
 	return o.sb.String(), nil
